@@ -483,6 +483,27 @@ MUTANTS = [
     M("F8-3-push-twice", ["C05", "C12"], (RP, "                        if high_suit != kicker_suit {\n", "                        if high_suit != kicker_suit {\n                            pairs.push(CardPair::new(Card::new(high, high_suit), Card::new(kicker, kicker_suit)));\n"), base="F8-3"),
     M("F8-3-other-vec", ["C05", "C12"], (RP, "                pairs.into_iter()\n", "                let _ = pairs;\n                Vec::new().into_iter()\n"), base="F8-3"),
     M("benign-D6-4-offsuit-const-suits", ["C05", "C12", "C10", "C06"], base="D6-4", benign=True),
+    M("benign-G1-1-dp-ref-row-tables", ["C01", "C07", "C08"], base="G1-1", benign=True),
+    M("G1-1-rows-swapped", ["C01", "C07"], (DP, "    REF_FOUR_6, REF_FOUR_5, REF_FOUR_4,", "    REF_FOUR_5, REF_FOUR_6, REF_FOUR_4,"), base="G1-1"),
+    M("G1-1-wrong-table", ["C01", "C07"], (DP, "        3 => &REF_THREE,", "        3 => &REF_TWO,"), base="G1-1"),
+    M("G1-1-index-swapped", ["C01", "C07"], (DP, "table[u8::from(rank) as usize][remaining_len as usize]", "table[remaining_len as usize][u8::from(rank) as usize]"), base="G1-1"),
+    M("benign-G4-2-carried-weight-by-value", ["C06", "C17"], base="G4-2", benign=True),
+    M("G4-2-close-eq", ["C06", "C17"], (HRS, "                if probability != Some(start_probability) {\n                    let prev_rank = rank.prev().unwrap();", "                if probability == Some(start_probability) {\n                    let prev_rank = rank.prev().unwrap();"), base="G4-2"),
+    M("G4-2-open-other-weight", ["C06", "C17"], (HRS, "pocket_run = probability.map(|probability| (rank, probability));", "pocket_run = probability.map(|_| (rank, 1.0));"), base="G4-2"),
+    M("G4-2-open-unguarded", ["C06", "C17"], (HRS, "            if pocket_run.is_none() {\n                pocket_run = probability.map(|probability| (rank, probability));\n            }", "            pocket_run = probability.map(|probability| (rank, probability));"), base="G4-2"),
+    M("benign-G5-2-accessors", ["C06", "C12", "C05", "C10"], base="G5-2", benign=True),
+    M("G5-2-all-contains-only", ["C12"], (HRS, "                    .all(|cp| self.probability(&cp) == Some(probability))\n                {\n                    rank_pairs.insert(pocket, probability);", "                    .all(|cp| self.contains(&cp))\n                {\n                    rank_pairs.insert(pocket, probability);"), base="G5-2"),
+    M("benign-G5-1-peek-probe", ["C06", "C12"], base="G5-1", benign=True),
+    M("G5-1-consume-extra", ["C12"], (HRS, "        card_pairs\n            .all(", "        card_pairs.next();\n        card_pairs.next();\n        card_pairs\n            .all("), base="G5-1"),
+    M("benign-G7-4-range-field", ["C13", "C08", "C09", "C02", "C05", "C12"], base="G7-4", benign=True),
+    M("G7-4-inclusive-no-plus", ["C13"], (RR, "indices: index_of(start)..index_of(end) + 1,", "indices: index_of(start)..index_of(end),"), base="G7-4"),
+    M("G7-4-all-short", ["C13", "C08"], (RR, "indices: 0..RANKS.len(),", "indices: 1..RANKS.len(),"), base="G7-4"),
+    M("G7-4-swapped", ["C13"], (RR, "indices: index_of(start)..index_of(end),", "indices: index_of(end)..index_of(start),"), base="G7-4"),
+    M("benign-G3-3-local-mask", ["C02", "C11", "C08", "C15"], base="G3-3", benign=True),
+    M("G3-3-forget-earlier", ["C02", "C11"], (FE, "used_cards |= hole_cards;", "used_cards = hole_cards;"), base="G3-3"),
+    M("G3-3-no-river", ["C02", "C11"], (FE, "let mut used_cards = u64::from(&turn) | u64::from(&river);", "let mut used_cards = u64::from(&turn) | u64::from(&turn);"), base="G3-3"),
+    M("G3-3-test-inverted", ["C02", "C11"], (FE, "if used_cards & hole_cards != 0 {", "if used_cards & hole_cards == 0 {"), base="G3-3"),
+    M("G3-3-one-hole", ["C02", "C11"], (FE, "let hole_cards = u64::from(&entry.0[0]) | u64::from(&entry.0[1]);", "let hole_cards = u64::from(&entry.0[0]) | u64::from(&entry.0[0]);"), base="G3-3"),
     M("benign-F3-3-computed-flush-weight", ["C01", "C07", "C08"], base="F3-3", benign=True),
     M("F3-3-unreversed", ["C01", "C07"], (MH, "1 << (12 - u8::from(card.rank()))", "1 << u8::from(card.rank())"), base="F3-3"),
     M("F3-3-off-by-one", ["C01", "C07"], (MH, "1 << (12 - u8::from(card.rank()))", "1 << (13 - u8::from(card.rank()))"), base="F3-3"),
